@@ -11,3 +11,9 @@ Proof. unfold cb4_3_index_ok. prove cb4_3. Qed.
 Lemma gen_rotk_tri_index_proof : gen_rotk_tri_index_ok.
 Proof. unfold gen_rotk_tri_index_ok. prove gen_rotk_tri. Qed.
 
+Lemma tg_rotk_pstrain_index_proof : tg_rotk_pstrain_index_ok.
+Proof. unfold tg_rotk_pstrain_index_ok. prove tg_rotk_pstrain. Qed.
+
+Lemma tg_arrk_pstrain_index_proof : tg_arrk_pstrain_index_ok.
+Proof. unfold tg_arrk_pstrain_index_ok. prove tg_arrk_pstrain. Qed.
+
